@@ -344,7 +344,8 @@ def run_property(prop, cfg, tier, repo, scratch, seed):
     cov['optional_undecided'] = optional_undecided
     cov['solver_s'] = round(cov['solver_s'], 1)
     # counterexamples for violations: concrete playback of the failing harness (values of kani::any())
-    for v in violations[:2]:
+    skip = set(cfg.get('_known_keys', []))
+    for v in [x for x in violations if x.get('key') not in skip][:2]:
         try:
             cex = concrete_playback(crate, kani_gen.HARNESSES[v['harness']]['path'])
             if cex:
